@@ -182,16 +182,19 @@ fn run_stepped(ctx: &Ctx, plan: &Plan) -> Stats {
             if i % shards != shard % shards.max(1) && shards > 1 {
                 continue;
             }
-            let case_seed = rng.next();
-            let mut h = History::new(case_seed, &plan.profiles[0], Some(Triggers::default()));
-            h.triggered = false;
-            h.directed = Some((*name).to_owned());
-            h.oplog.push(format!("directed scenario: {name}"));
-            f(&mut h);
-            h.finish();
-            h.shape.push(200 + i as u8);
-            judge_history(ctx, &mut stats, &h);
-            stats.op(&format!("directed:{name}"));
+            // (each with several case seeds: the scenarios draw their details from the history's generator)
+            for _ in 0..ctx.size(6, 100) {
+                let case_seed = rng.next();
+                let mut h = History::new(case_seed, &plan.profiles[0], Some(Triggers::default()));
+                h.triggered = false;
+                h.directed = Some((*name).to_owned());
+                h.oplog.push(format!("directed scenario: {name}"));
+                f(&mut h);
+                h.finish();
+                h.shape.push(200 + i as u8);
+                judge_history(ctx, &mut stats, &h);
+                stats.op(&format!("directed:{name}"));
+            }
         }
         let mine = total / shards as u64 + 1;
         for i in 0..mine {
